@@ -13,12 +13,12 @@ Local Open Scope string_scope.
         The parameter of each variable is given by the generator's naming (process_name, then "_" appended until
         the name is free of self / kwargs / gql / UNSET / serialize functions / earlier parameters). ---- *)
 Definition C03_delivery_full : Prop :=
-  forall ser S snake vs kwargs n g, ser_wf ser ->
-    generate S (naming S snake vs) vs = Some g -> NoDup (map v_name vs) ->
-    typed_call n S snake (naming S snake vs) vs kwargs = true ->
-    exists sent cs, (forall m, n <= m -> call_method ser m S snake (naming S snake vs) vs kwargs = Sent sent) /\
+  forall ser S snake extra vs kwargs n g, ser_wf ser ->
+    generate S (naming S snake extra vs) vs = Some g -> NoDup (map v_name vs) ->
+    typed_call n S snake (naming S snake extra vs) vs kwargs = true ->
+    exists sent cs, (forall m, n <= m -> call_method ser m S snake (naming S snake extra vs) vs kwargs = Sent sent) /\
                     coerce_vars n S vs sent = Some cs /\
-                    intended_vars ser n S snake (naming S snake vs) vs kwargs = Some cs.
+                    intended_vars ser n S snake (naming S snake extra vs) vs kwargs = Some cs.
 
 (* ---- END TO END, proved.  Hypotheses besides validity of the operation (distinct variable names, accepted by the
         generator) and typed arguments: names_ok = every mangled variable name is an identifier and no keyword
@@ -28,40 +28,40 @@ Definition C03_delivery_full : Prop :=
         query+_query) went away with /repo d163d56, 1ef155d/0db841f, a558946/7f3b78b. ---- *)
 Theorem C03_sent_coerces_to_intended : forall ser, ser_wf ser -> forall S snake,
   inputs_ok S snake = true ->
-  forall vs kwargs n g, generate S (naming S snake vs) vs = Some g -> names_ok S snake vs = true ->
-    NoDup (map v_name vs) -> typed_call n S snake (naming S snake vs) vs kwargs = true ->
-    exists sent cs, (forall m, n <= m -> call_method ser m S snake (naming S snake vs) vs kwargs = Sent sent) /\
+  forall extra vs kwargs n g, generate S (naming S snake extra vs) vs = Some g -> names_ok S snake vs = true ->
+    NoDup (map v_name vs) -> typed_call n S snake (naming S snake extra vs) vs kwargs = true ->
+    exists sent cs, (forall m, n <= m -> call_method ser m S snake (naming S snake extra vs) vs kwargs = Sent sent) /\
                     coerce_vars n S vs sent = Some cs /\
-                    intended_vars ser n S snake (naming S snake vs) vs kwargs = Some cs.
+                    intended_vars ser n S snake (naming S snake extra vs) vs kwargs = Some cs.
 Proof.
-  intros ser Hser S snake Hin vs kwargs n g Hg Hn Hd Ht.
-  exact (call_delivery ser Hser S snake Hin (naming S snake vs) vs kwargs n g Hg (naming_wf S snake vs Hd Hn) Hd Ht).
+  intros ser Hser S snake Hin extra vs kwargs n g Hg Hn Hd Ht.
+  exact (call_delivery ser Hser S snake Hin (naming S snake extra vs) vs kwargs n g Hg (naming_wf S snake extra vs Hd Hn) Hd Ht).
 Qed.
 Print Assumptions C03_sent_coerces_to_intended.
 
 Theorem C03_omitted_absent_call : forall ser, ser_wf ser -> forall S snake,
   inputs_ok S snake = true ->
-  forall vs kwargs n g, generate S (naming S snake vs) vs = Some g -> names_ok S snake vs = true ->
-    NoDup (map v_name vs) -> typed_call n S snake (naming S snake vs) vs kwargs = true ->
-    forall v, In v vs -> assoc (naming S snake vs (v_name v)) kwargs = None ->
-    exists sent, (forall m, n <= m -> call_method ser m S snake (naming S snake vs) vs kwargs = Sent sent) /\
+  forall extra vs kwargs n g, generate S (naming S snake extra vs) vs = Some g -> names_ok S snake vs = true ->
+    NoDup (map v_name vs) -> typed_call n S snake (naming S snake extra vs) vs kwargs = true ->
+    forall v, In v vs -> assoc (naming S snake extra vs (v_name v)) kwargs = None ->
+    exists sent, (forall m, n <= m -> call_method ser m S snake (naming S snake extra vs) vs kwargs = Sent sent) /\
                  jlookup (v_name v) sent = None.
 Proof.
-  intros ser Hser S snake Hin vs kwargs n g Hg Hn Hd Ht.
-  exact (call_omitted_absent ser Hser S snake Hin (naming S snake vs) vs kwargs n g Hg (naming_wf S snake vs Hd Hn) Hd Ht).
+  intros ser Hser S snake Hin extra vs kwargs n g Hg Hn Hd Ht.
+  exact (call_omitted_absent ser Hser S snake Hin (naming S snake extra vs) vs kwargs n g Hg (naming_wf S snake extra vs Hd Hn) Hd Ht).
 Qed.
 Print Assumptions C03_omitted_absent_call.
 
 Theorem C03_none_is_null_call : forall ser, ser_wf ser -> forall S snake,
   inputs_ok S snake = true ->
-  forall vs kwargs n g, generate S (naming S snake vs) vs = Some g -> names_ok S snake vs = true ->
-    NoDup (map v_name vs) -> typed_call n S snake (naming S snake vs) vs kwargs = true ->
-    forall v, In v vs -> assoc (naming S snake vs (v_name v)) kwargs = Some PNone ->
-    exists sent, (forall m, n <= m -> call_method ser m S snake (naming S snake vs) vs kwargs = Sent sent) /\
+  forall extra vs kwargs n g, generate S (naming S snake extra vs) vs = Some g -> names_ok S snake vs = true ->
+    NoDup (map v_name vs) -> typed_call n S snake (naming S snake extra vs) vs kwargs = true ->
+    forall v, In v vs -> assoc (naming S snake extra vs (v_name v)) kwargs = Some PNone ->
+    exists sent, (forall m, n <= m -> call_method ser m S snake (naming S snake extra vs) vs kwargs = Sent sent) /\
                  jlookup (v_name v) sent = Some JNull.
 Proof.
-  intros ser Hser S snake Hin vs kwargs n g Hg Hn Hd Ht.
-  exact (call_none_is_null ser Hser S snake Hin (naming S snake vs) vs kwargs n g Hg (naming_wf S snake vs Hd Hn) Hd Ht).
+  intros ser Hser S snake Hin extra vs kwargs n g Hg Hn Hd Ht.
+  exact (call_none_is_null ser Hser S snake Hin (naming S snake extra vs) vs kwargs n g Hg (naming_wf S snake extra vs Hd Hn) Hd Ht).
 Qed.
 Print Assumptions C03_none_is_null_call.
 
@@ -76,19 +76,19 @@ Proof. exact ws_same_variables_as_http. Qed.
 Print Assumptions C03_ws_same_variables_as_http.
 
 (* ---- the renaming: injective on distinct variables, never a reserved name, valid identifiers ---- *)
-Theorem C03_naming_injective_and_free : forall S snake vs, NoDup (map v_name vs) ->
-  NoDup (map (fun v => naming S snake vs (v_name v)) vs) /\
-  (forall v, In v vs -> ~ In (naming S snake vs (v_name v)) (reserved_names S)).
+Theorem C03_naming_injective_and_free : forall S snake extra vs, NoDup (map v_name vs) ->
+  NoDup (map (fun v => naming S snake extra vs (v_name v)) vs) /\
+  (forall v, In v vs -> ~ In (naming S snake extra vs (v_name v)) (reserved_names S ++ extra)%list).
 Proof.
-  intros S snake vs Hd. rewrite (naming_names S snake vs Hd).
-  destruct (assign_free (map (base_name snake) (map v_name vs)) (reserved_names S)) as [H1 H2].
-  split; [exact H1|]. intros v Hv. apply H2. rewrite <- (naming_names S snake vs Hd).
-  apply (in_map (fun v => naming S snake vs (v_name v))). exact Hv.
+  intros S snake extra vs Hd. rewrite (naming_names S snake extra vs Hd).
+  destruct (assign_free (map (base_name snake) (map v_name vs)) (reserved_names S ++ extra)%list) as [H1 H2].
+  split; [exact H1|]. intros v Hv. apply H2. rewrite <- (naming_names S snake extra vs Hd).
+  apply (in_map (fun v => naming S snake extra vs (v_name v))). exact Hv.
 Qed.
 Print Assumptions C03_naming_injective_and_free.
 
-Theorem C03_naming_wf : forall S snake vs,
-  NoDup (map v_name vs) -> names_ok S snake vs = true -> names_wf S (naming S snake vs) vs = true.
+Theorem C03_naming_wf : forall S snake extra vs,
+  NoDup (map v_name vs) -> names_ok S snake vs = true -> names_wf S (naming S snake extra vs) vs = true.
 Proof. exact naming_wf. Qed.
 Print Assumptions C03_naming_wf.
 
@@ -186,7 +186,7 @@ Lemma ser_inst_wf : ser_wf ser_inst.
 Proof. intros f j H. exists (JArr [JStr f; j]). split; reflexivity. Qed.
 
 Definition callm (S : schema) (snake : bool) (vs : list vardef) (kw : list (string * pyval)) : outcome :=
-  call_method ser_inst 8 S snake (naming S snake vs) vs kw.
+  call_method ser_inst 8 S snake (naming S snake ["Op"] vs) vs kw.
 
 (* F10 (fixed by /repo d163d56) - the former refutation witnesses, kept as regression cases:
    omitted -> no key; None -> null; list -> serialize per non-None item *)
@@ -216,6 +216,11 @@ Example C03_f7_regression :
     = Sent [("UNSET", JArr [JArr [JStr "ser_DT"; JStr "a"]]); ("ser_DT", JArr [JStr "ser_DT"; JStr "b"])].
 Proof. vm_compute. repeat split. Qed.
 
+(* F32 (fixed by /repo e1c98d1): a variable named like the operation's result class is renamed *)
+Example C03_f32_regression :
+  callm [] false [V "Op" (TNamed "Int")] [("Op_", PInt 1)] = Sent [("Op", JInt 1)].
+Proof. vm_compute. reflexivity. Qed.
+
 (* what still breaks (own small classes): a name that process_name turns into a non-identifier ... *)
 Theorem C03_names_refuted_not_identifier :
   callm [] true [V "_1" (TNamed "Int")] [("1", PInt 1)] = PySyntaxError /\
@@ -234,7 +239,7 @@ Proof. vm_compute. split; reflexivity. Qed.
 Theorem C03_delivery_refuted_names : ~ C03_delivery_full.
 Proof.
   intro H.
-  destruct (H ser_inst [] true [V "_1" (TNamed "Int")] [("1", PInt 1)] 8 _ ser_inst_wf eq_refl)
+  destruct (H ser_inst [] true [] [V "_1" (TNamed "Int")] [("1", PInt 1)] 8 _ ser_inst_wf eq_refl)
     as [sent [cs [H1 _]]].
   - repeat constructor. intros [].
   - reflexivity.
